@@ -6,7 +6,8 @@
    every run.  Statements only; proofs are in Proofs/Choices_proofs.v. *)
 From Coq Require Import ZArith List Bool.
 Import ListNotations.
-Require Import Grist.Lib.PyVal Grist.Model.Choices Grist.Proofs.Choices_proofs.
+Require Import Grist.Lib.PyVal Grist.Lib.PyImp Grist.Model.Choices Grist.Model.ChoicesPy Grist.Proofs.Choices_proofs.
+Require Import GristGen.Choices_gen Grist.Proofs.Choices_bridge.
 Open Scope Z_scope.
 
 (* ------------------------------------------------------------------------------------------------
@@ -134,6 +135,40 @@ Theorem C39_frame_filter_untouched : forall ren es,
   (forall k l v, In (k, FList l) es -> In v l -> in_renames ren v = false) ->
   spec_filter ren (FObj es) = None.
 Proof. exact spec_filter_untouched. Qed.
+
+(* ------------------------------------------------------------------------------------------------
+   The tie to the source.  GristGen.Choices_gen holds, translated from /repo on every run by harness/imp2v.py:
+   ChoiceColumn._rename_cell_choice, ChoiceListColumn._rename_cell_choice, ChoiceColumn.rename_choices (column.py)
+   and two fragments of UserActions.RenameChoices (useractions.py): the only-records filter of the data half and
+   the loop over the saved filters of the column (with its nested `rename` helper). *)
+
+(* the scan over the column's storage produces exactly the model's list of updates (row ids, new values) *)
+Theorem C39_source_scan : forall k ren data,
+  rename_choices k data ren = Val (zs (updates k ren data)).
+Proof. exact rename_choices_bridge. Qed.
+
+(* behind the guard of the scan, the two _rename_cell_choice methods compute the model's rename_cell *)
+Theorem C39_source_cell : forall k ren v,
+  (negb (val_is_none v) && py_is_right_type k v = false -> rename_cell k ren v = None) /\
+  (negb (val_is_none v) && py_is_right_type k v = true ->
+   rename_cell_choice k ren v = Val (as_val (rename_cell k ren v))).
+Proof. exact cell_bridge. Qed.
+
+(* the row ids and values RenameChoices hands to BulkUpdateRecord are the updates of actual records only: the list
+   the model's rename_column trims and applies *)
+Theorem C39_source_records : forall k ren ids data,
+  rename_records k data ids ren = Val (zs (only_records ids (updates k ren data))).
+Proof. exact rename_records_bridge. Qed.
+
+(* the filter loop, run on the records of the column, rewrites exactly the records for which the model's
+   rename_filter says Some, with that content, and raises AttributeError exactly when the model does *)
+Theorem C39_source_filters : forall ren c recs,
+  rename_filter_records ren recs =
+  match rename_filters ren c (map (fun r => (c, snd r)) recs) with
+  | Ok outs => Val (collect recs outs)
+  | Err _ => Exn AttributeError
+  end.
+Proof. exact rename_filter_records_bridge. Qed.
 
 (* ------------------------------------------------------------------------------------------------
    Regression examples: the three inputs on which the code failed before commits 789e828 / 9e0465d. *)
